@@ -218,6 +218,36 @@ where
                 // bit 4*limit: bare value, +1: decode_all, +2: inside a Vec
                 Out::V(differ)
             });
+            // the serde data model itself, recorded by a serializer that answers is_human_readable() either way: one record
+            // with the single field `bits` holding the integer; and played back through a self-describing deserializer
+            for (k, human) in [(0usize, true), (1usize, false)] {
+                let lab = [["serde_model(human)", "serde_model(binary)"], ["serde_model_wrapping(human)", "serde_model_wrapping(binary)"],
+                           ["serde_model_back(human)", "serde_model_back(binary)"], ["serde_model_wrapping_back(human)", "serde_model_wrapping_back(binary)"],
+                           ["serde_model_play(human)", "serde_model_play(binary)"]];
+                let show = |t: Result<sermodel::Tok, sermodel::Err_>| match t {
+                    Ok(t) => match t.bits_record() {
+                        Some((v, true)) => Out::S(format!("{}", v)),
+                        Some((v, false)) => Out::S(format!("{}", v as u128)),
+                        None => Out::E(t.show()),
+                    },
+                    Err(e) => Out::E(e.to_string()),
+                };
+                step!(st, outs, 31 + 5 * k, lab[0][k], show(sermodel::record(&x, human)));
+                step!(st, outs, 32 + 5 * k, lab[1][k], show(sermodel::record(&Wrapping(x), human)));
+                step!(st, outs, 33 + 5 * k, lab[2][k], Out::O(sermodel::record(&x, human).ok().and_then(|t| sermodel::play::<F>(&t, human).ok()).map(|v| v.raw())));
+                step!(st, outs, 34 + 5 * k, lab[3][k], Out::O(sermodel::record(&Wrapping(x), human).ok().and_then(|t| sermodel::play::<Wrapping<F>>(&t, human).ok()).map(|v| v.0.raw())));
+                step!(st, outs, 35 + 5 * k, lab[4][k], {
+                    // a record written by the harness: struct {bits: <the underlying integer type>}
+                    let l = F::LAY;
+                    let kind: &'static str = match (l.signed, l.w) {
+                        (true, 8) => "i8", (true, 16) => "i16", (true, 32) => "i32", (true, 64) => "i64", (true, _) => "i128",
+                        (false, 8) => "u8", (false, 16) => "u16", (false, 32) => "u32", (false, 64) => "u64", (false, _) => "u128",
+                    };
+                    let sx = if l.signed && l.w < 128 && (a >> (l.w - 1)) & 1 == 1 { a | (!0u128 << l.w) } else { a };
+                    let t = sermodel::Tok::Struct("Record".into(), vec![("bits".into(), sermodel::Tok::Int(kind, sx, l.signed && (sx as i128) < 0))]);
+                    Out::O(sermodel::play::<F>(&t, human).ok().map(|v| v.raw()))
+                });
+            }
         }
     }
 }
